@@ -245,6 +245,27 @@ Proof.
     cbn [andb]. repeat split; try lia.
 Qed.
 
+(* ---------- vector registers ---------- *)
+
+Lemma map2_length f a b : length (map2 f a b) = Nat.min (length a) (length b).
+Proof. revert b. induction a as [|x a IH]; intros [|y b]; cbn [map2 length]; try reflexivity. rewrite IH. reflexivity. Qed.
+
+Lemma vput_full w lo old : length lo = w -> (length old <= w)%nat -> vput w lo old = lo.
+Proof.
+  intros H1 H2. unfold vput. rewrite skipn_all2 by exact H2. rewrite app_nil_r. apply firstn_all2. lia.
+Qed.
+
+Lemma vlow_full w v : length v = w -> vlow w v = v.
+Proof. intros H. unfold vlow. apply firstn_all2. lia. Qed.
+
+Lemma hi_mask32 data : Forall (fun b => 0 <= b < 256) data -> length data = 32%nat ->
+  let y3 := map2 eqmask (repeat 128 32) (map2 Z.land (repeat 128 32) data) in
+  movmsk y3 = movmsk data /\ forallb (fun x => x =? 0) (map2 Z.land y3 y3) = (movmsk data =? 0) /\ length y3 = 32%nat.
+Proof. intros H L. pose proof (hi_mask data H) as M. rewrite L in M. exact M. Qed.
+
+Lemma hd_movd x old : hd 0 (vput 16 (le_bytes4 x ++ repeat 0 12) old) = x mod 256.
+Proof. reflexivity. Qed.
+
 (* ---------- conditions ---------- *)
 
 Lemma signed64_small a : 0 <= a < two63 -> signed64 a = a.
